@@ -115,6 +115,10 @@ func VerifC09_NodeClaimFinalizer() {
 		n.Finalizers = []string{v1.TerminationFinalizer}
 		delete(n.Labels, v1.NodePoolLabelKey)
 		e.kc.Nodes = append(e.kc.Nodes, n)
+		if verifrt.Choice("start.deleting", 0, 1) == 1 { // ... and already being deleted, its instance already terminating
+			nc.DeletionTimestamp = &metav1.Time{Time: start}
+			e.cp.Terminating[nc.Status.ProviderID] = true
+		}
 	}
 	rounds := verifrt.Bound("reconciles", 3, 4)
 	for r := 0; r < rounds; r++ {
